@@ -451,6 +451,14 @@ def compare(op, a, b, symr, t=None):
     if a[0] == 'uninit' or b[0] == 'uninit':
         return None
     if is_ptr(a) or is_ptr(b):
+        if op in ('<', '<=', '>', '>=') and a[0] == 'p' and b[0] == 'p' and a[1] == b[1] and a[2] and b[2] and a[2][:-1] == b[2][:-1] \
+                and not isinstance(a[2][-1], str) and not isinstance(b[2][-1], str):
+            # two pointers into the same array: ordered like their indices
+            x_, y_ = a[2][-1], b[2][-1]
+            x_ = C(x_) if isinstance(x_, int) else x_
+            y_ = C(y_) if isinstance(y_, int) else y_
+            if is_int(x_) and is_int(y_):
+                return compare(op, x_, y_, symr)
         return compare_ptr(op, a, b)
     if not is_int(a) or not is_int(b):
         return None
